@@ -40,6 +40,26 @@ func (w *World) ctxConstructors() map[*ssa.Function]bool {
 	if len(out) == 0 {
 		cannotDecide("no RenderContext constructor found")
 	}
+	// functions that return the result of a constructor are constructors too (Clone built on
+	// NewRenderContext, convenience wrappers)
+	for changed := true; changed; {
+		changed = false
+		for _, fn := range w.pkgFuncs() {
+			if out[fn] {
+				continue
+			}
+			instrsOf(fn, func(in ssa.Instruction) {
+				c, ok := in.(*ssa.Call)
+				if !ok || out[fn] {
+					return
+				}
+				if f := c.Call.StaticCallee(); f != nil && out[f] && isNamed(c.Type(), twigPath, "RenderContext") && flowsToReturn(c) {
+					out[fn] = true
+					changed = true
+				}
+			})
+		}
+	}
 	return out
 }
 
@@ -225,12 +245,44 @@ func checkC11(w *World, r *Report) {
 			r.bad("R11.3", ssaName(inc), "nil return under ignoreMissing", w.posOf(in.Pos()), "nil is returned under ignoreMissing but no failed call can be associated with it")
 			return
 		}
+		if !isLoadError(errv, loadFn) {
+			r.bad("R11.3", ssaName(inc), "nil return under ignoreMissing", w.posOf(in.Pos()), "the error that `ignore missing` swallows here is not the result of looking the named template up (Engine.Load): failures inside the included template are turned into empty output")
+			return
+		}
 		if notFoundFor(errv).at(in) {
 			r.ok("R11.3", ssaName(inc), "nil return under ignoreMissing", w.posOf(in.Pos()), "also under errors.Is(err, ErrTemplateNotFound)", true)
 		} else {
 			r.bad("R11.3", ssaName(inc), "nil return under ignoreMissing", w.posOf(in.Pos()), "`ignore missing` turns a failure that is not 'template not found' into empty output (no errors.Is(err, ErrTemplateNotFound) on this path)")
 		}
 	})
+	// deferred / nested function literals that clear the function's error result under the flag:
+	// such a closure sees whatever error the function is about to return, including errors of the
+	// nested Render — it cannot be tied to the lookup of the named template
+	for _, a := range inc.AnonFuncs {
+		mentionsFlag := false
+		instrsOf(a, func(in ssa.Instruction) {
+			if fa, ok := in.(*ssa.FieldAddr); ok {
+				if tn, f := fieldOfAddr(fa); tn == "IncludeNode" && f == "ignoreMissing" {
+					mentionsFlag = true
+				}
+			}
+		})
+		clears := false
+		var at ssa.Instruction
+		instrsOf(a, func(in ssa.Instruction) {
+			if st, ok := in.(*ssa.Store); ok && isNilConst(st.Val) && types.Identical(deref(st.Addr.Type()), types.Universe.Lookup("error").Type()) {
+				if _, isFV := st.Addr.(*ssa.FreeVar); isFV {
+					clears, at = true, in
+				}
+			}
+		})
+		// the flag may also be tested in the enclosing function before the defer is installed
+		if clears {
+			n3++
+			_ = mentionsFlag
+			r.bad("R11.3", ssaName(a), "error result cleared in a function literal", w.posOf(at.Pos()), "a (deferred) function literal sets the include's error result to nil: it applies to every error the function is about to return — also to failures raised while rendering the included template — so `ignore missing` no longer swallows only the missing named template")
+		}
+	}
 	r.floor("nil returns controlled by ignoreMissing", n3, 1)
 
 	// ---- R11.4
@@ -349,4 +401,48 @@ func freshMap(v ssa.Value, depth int) (string, bool) {
 		}
 	}
 	return "a value of unknown origin", false
+}
+
+
+// isLoadError: the error value is result #1 of a call to Engine.Load (through phis).
+func isLoadError(v ssa.Value, loadFn *types.Func) bool {
+	seen := map[ssa.Value]bool{}
+	var walk func(v ssa.Value) bool
+	walk = func(v ssa.Value) bool {
+		if seen[v] {
+			return true
+		}
+		seen[v] = true
+		switch x := v.(type) {
+		case *ssa.Extract:
+			c, ok := x.Tuple.(*ssa.Call)
+			return ok && calleeFunc(c) == loadFn
+		case *ssa.Phi:
+			for _, e := range x.Edges {
+				if isNilConst(e) {
+					continue
+				}
+				if !walk(e) {
+					return false
+				}
+			}
+			return true
+		case *ssa.UnOp:
+			// named result / spilled local: every non-nil store must be a Load error
+			if al, ok := x.X.(*ssa.Alloc); ok && al.Referrers() != nil {
+				n := 0
+				for _, ref := range *al.Referrers() {
+					if st, ok := ref.(*ssa.Store); ok && st.Addr == al && !isNilConst(st.Val) {
+						n++
+						if !walk(st.Val) {
+							return false
+						}
+					}
+				}
+				return n > 0
+			}
+		}
+		return false
+	}
+	return walk(v)
 }
